@@ -22,6 +22,10 @@ CLAIMED = {
     text="Decided as a static non-interference argument: (R1) the crate's statics are exactly three lazy cells and one constant table; the payload types of the two matcher cells, the Smack automaton, ClientInfo and the Masscanned configuration (incl. every impl behind Box<dyn Logger>) contain no interior mutability under a deep type walk, so the only shared mutable state is the Mutex<HashMap<u32,TCPControlBlock>>; (R2) that table is reached only from tcp::repl with keys whose provenance is generate(client_info, key) for the ClientInfo created fresh in reply() for this frame; (R3) UDP passes no control block, control-block fields are touched only through the tcb parameter in three functions, get_tcb looks up exactly the key it was given; (R4) the wall clock is read in five named places and never reaches a branch condition; (R5) no RNG/env/fs/thread/socket call and no order-dependent hash iteration is reachable from reply().",
     note="Cookie collisions (two flows hashing to one 32-bit key, with the constant key [0,0]) are outside this argument. Relies on Rust's aliasing rules for & / &mut.",
     technique="state inventory + deep type walk for interior mutability + key provenance + who-may-call over the call graph", ref="§4 C08"),
+ 'C03': dict(
+    text="Decides the provenance of every address/port/protocol field written into a reply and who may write the per-frame ClientInfo: Ethernet source = configured MAC, destination = request source, EtherType constant = the dispatch value selecting its arm; IPv4/IPv6 source/destination mirrored (IPv6 source may be the solicited ND target, substituted only on the ICMPv6 arm), version constants, next-protocol constant = dispatch value of its arm; TCP/UDP ports read back from ClientInfo after the application layer ran, whose only writers are the parsing layer (value = the request getter) and the STUN change-port rewrite (+1 wrapping, under change_port, not loop-carried); each layer records its fields before handing over; exactly one transmit site, fed by reply(), once per received frame.",
+    note="Byte offsets of pnet getters/setters are trusted (library).",
+    technique="reaching-definition provenance tables on MIR + who-may-write sets + dominance of dispatch arms", ref="§4 C03"),
 }
 
 NOT_YET = {}
